@@ -452,6 +452,22 @@ const (
 	FlagWrite  = 2 // statement is syntactically a potential write to non-local memory
 )
 
+// statement coverage of the controlled executions of this process (one bit per site)
+var covered []uint32
+
+// CoveredSites returns the ids of the statement sites executed under a controller so far.
+func CoveredSites() []uint32 {
+	var out []uint32
+	for w, bits := range covered {
+		for b := uint32(0); b < 32; b++ {
+			if bits&(1<<b) != 0 {
+				out = append(out, uint32(w)*32+b)
+			}
+		}
+	}
+	return out
+}
+
 // P is called before every instrumented statement.
 func P(site uint32, flags uint8) {
 	c := loadCtl()
@@ -461,6 +477,16 @@ func P(site uint32, flags uint8) {
 	t := c.cur
 	if t == nil {
 		return
+	}
+	if w := int(site >> 5); w < len(covered) {
+		covered[w] |= 1 << (site & 31)
+	} else {
+		n := make([]uint32, len(SiteTable)/32+1)
+		copy(n, covered)
+		covered = n
+		if w < len(covered) {
+			covered[w] |= 1 << (site & 31)
+		}
 	}
 	if t.pendingWrite {
 		t.pendingWrite = false
